@@ -74,7 +74,8 @@ Lemma dispatch_answer_spec c m e1 e2 :
   | Ok (v, _) =>
     match tfind (ctab c) v with
     | Some (k, tg) =>
-      dispatch_answer c m e1 e2 = (set_tab c (trelease (ctab c) k), 0%Z, [(tg, Some (skipn (cidl c) m))]) /\
+      dispatch_answer c m e1 e2 = (set_tab c (trelease (ctab c) k), answer_ret c tg (skipn (cidl c) m),
+                                   [(tg, Some (skipn (cidl c) m))]) /\
       nth_error (ctab c) k = Some (mkwe v (Some tg))
     | None => dispatch_answer c m e1 e2 = (c, e2, []) /\ ~ In v (act_ids (ctab c))
     end
